@@ -142,7 +142,7 @@ func (cid *CodeIdentifier) equalOnNonEmptyFields(cidRef CodeIdentifier) bool {
 	if cidRef.computedRegexs != nil {
 		return ((cidRef.computedRegexs.contextRegex.MatchString(cid.Context)) || (cidRef.Context == "")) &&
 			((cidRef.computedRegexs.packageRegex.MatchString(cid.Package)) || (cidRef.Package == "")) &&
-			((cidRef.computedRegexs.packageRegex.MatchString(cid.Interface)) || (cidRef.Interface == "")) &&
+			((cidRef.computedRegexs.interfaceRegex.MatchString(cid.Interface)) || (cidRef.Interface == "")) &&
 			((cidRef.computedRegexs.methodRegex.MatchString(cid.Method)) || (cidRef.Method == "")) &&
 			((cidRef.computedRegexs.receiverRegex.MatchString(cid.Receiver)) || (cidRef.Receiver == "")) &&
 			((cidRef.computedRegexs.fieldRegex.MatchString(cid.Field)) || (cidRef.Field == "")) &&
@@ -152,7 +152,7 @@ func (cid *CodeIdentifier) equalOnNonEmptyFields(cidRef CodeIdentifier) bool {
 	}
 	return ((cid.Context == cidRef.Context) || (cidRef.Context == "")) &&
 		((cid.Package == cidRef.Package) || (cidRef.Package == "")) &&
-		((cid.Package == cidRef.Interface) || (cidRef.Interface == "")) &&
+		((cid.Interface == cidRef.Interface) || (cidRef.Interface == "")) &&
 		((cid.Method == cidRef.Method) || (cidRef.Method == "")) &&
 		((cid.Receiver == cidRef.Receiver) || (cidRef.Receiver == "")) &&
 		((cid.Field == cidRef.Field) || (cidRef.Field == "")) &&
